@@ -76,6 +76,15 @@ static void build_variants(bool thorough) {
         ref::Seg4 z; z.start = 0x10000 - tail; z.end = 0xFFFF; z.use_array = arr != 0; z.delta = arr ? 0 : uint16_t(0x200 - z.start); if (arr) for (unsigned k = 0; k < tail; ++k) z.arr.push_back(uint16_t(0x200 + k)); sg.push_back(z);
         std::vector<ref::EncRec> recs; recs.push_back({ 3, 1, ref::build_fmt4(sg) }); v.cmap = ref::build_cmap(recs); g_var.push_back(v);
     }
+    // large glyphIdArray: the idRangeOffset of the segments after a 16 K .. 32 K entry array crosses 0x8000 (it is an UNSIGNED 16-bit byte offset)
+    for (unsigned big : { 16379u, 16380u, 16381u, 16382u, 16383u, 16384u, 20992u, 32000u }) {
+        Variant v; v.shipped = false; v.name = "syn large-array entries=" + std::to_string(big);
+        std::vector<ref::Seg4> sg; ref::Seg4 a; a.start = 0x4E00; a.end = uint16_t(0x4E00 + big - 1); a.use_array = true; a.delta = 0; for (unsigned k = 0; k < big; ++k) a.arr.push_back(uint16_t(k % 7 == 6 ? 0 : 1 + k % 500)); sg.push_back(a);
+        ref::Seg4 b; b.start = 0xE000; b.end = 0xE07F; b.use_array = true; b.delta = 3; for (unsigned k = 0; k < 0x80; ++k) b.arr.push_back(uint16_t(200 + k)); sg.push_back(b);
+        ref::Seg4 c; c.start = 0xF000; c.end = 0xF0FF; c.use_array = true; c.delta = 0; for (unsigned k = 0; k < 0x100; ++k) c.arr.push_back(uint16_t(k % 3 ? 10 + k : 0)); sg.push_back(c);
+        add_terminator(sg, 0);
+        std::vector<ref::EncRec> recs; recs.push_back({ 3, 1, ref::build_fmt4(sg) }); v.cmap = ref::build_cmap(recs); g_var.push_back(v);
+    }
     // subtables stored in the opposite order of their encoding records (format 12 data before format 4 data)
     for (int k12 : { 1, 3 }) for (int ns : { 2, 17 }) { Variant v; v.shipped = false; v.name = "syn reversed-data seg=" + std::to_string(ns) + " fmt12=" + std::to_string(k12);
         std::vector<ref::EncRec> recs; recs.push_back({ 3, 1, ref::build_fmt4(fmt4_family(ns, 3, 0)) }); recs.push_back({ 3, 10, ref::build_fmt12(fmt12_family(k12)) }); v.cmap = ref::build_cmap(recs, true); g_var.push_back(v); }
